@@ -10,6 +10,7 @@ import (
 	"fmt"
 	"math/big"
 	"reflect"
+	"regexp"
 	"sort"
 	"strings"
 	"time"
@@ -18,6 +19,8 @@ import (
 )
 
 type world struct {
+	outs   map[string]bool // names of the output fields of the schema
+	nOut   int
 	root   *ggql.Root
 	any    bool
 	calls  int
@@ -135,11 +138,35 @@ func newWorld(u *Universe, any bool, inTypes, outTypes []*TRef) *world {
 	} else {
 		w.root = ggql.NewRoot(&schemaRes{q: &queryRes{w: w}})
 	}
+	w.outs = map[string]bool{}
+	for _, t := range outTypes {
+		w.outs["o"+t.Enc()] = true
+	}
 	sdl := sdlOf(u, inTypes, outTypes)
 	if err := w.root.ParseString(sdl); err != nil {
 		die("the universe's schema is rejected: %s\n%s", err, sdl)
 	}
 	return w
+}
+
+var rfc3339 = regexp.MustCompile(`^\d{4}-\d{2}-\d{2}T\d{2}:\d{2}:\d{2}(\.\d+)?(Z|[+-]\d{2}:\d{2})$`)
+
+// companion returns the type with the same wrappers and another leaf type (nil for composite bases).
+func companion(t *TRef) *TRef {
+	swap := map[string]string{"Int": "ID", "ID": "Int", "String": "Int", "Float": "String", "Float64": "String", "Int64": "ID",
+		"Boolean": "String", "Time": "String", "Color": "String"}
+	switch t.K {
+	case "list", "nonnull":
+		of := companion(t.Of)
+		if of == nil {
+			return nil
+		}
+		return &TRef{K: t.K, Of: of}
+	}
+	if n, ok := swap[t.N]; ok {
+		return &TRef{K: t.K, N: n}
+	}
+	return nil
 }
 
 // ---------------------------------------------------------------- C04
@@ -381,6 +408,15 @@ func (w *world) runOut(c *Case) outObs {
 	req := "{ " + key + " }"
 	if c.T.Base() == "Thing" {
 		req = "{ " + key + " { id } }"
+	} else if comp := companion(c.T); comp != nil && w.outs["o"+comp.Enc()] && c.Gv.K == "list" {
+		// the resolver's value is the application's: the SAME Go value also answers a field of another leaf type in this
+		// request (before or after the field under test); what is placed at one position must not change with the other
+		w.nOut++
+		if w.nOut%2 == 0 {
+			req = "{ " + key + " zz: o" + comp.Enc() + " }"
+		} else {
+			req = "{ zz: o" + comp.Enc() + " " + key + " }"
+		}
 	}
 	w.calls = 0
 	w.ret = buildOut(*c.Gv)
@@ -396,6 +432,9 @@ func (w *world) runOut(c *Case) outObs {
 		for _, e := range errs {
 			em, _ := e.(map[string]interface{})
 			p, _ := em["path"].([]interface{})
+			if len(p) > 0 && p[0] == "zz" {
+				continue // the companion field's own failures
+			}
 			if len(p) == 0 || p[0] != key {
 				o.BadErr = fmt.Sprintf("an error does not address the field: %v", em)
 				continue
@@ -651,7 +690,8 @@ func absOutRaw(x interface{}) Val {
 	case nil:
 		return Val{K: "null"}
 	case string:
-		if _, err := time.Parse(time.RFC3339Nano, tv); err == nil && !knownTimes[tv] {
+		// (time.Parse alone is more lenient than RFC 3339: it takes an unpadded hour and a decimal comma)
+		if _, err := time.Parse(time.RFC3339Nano, tv); err == nil && rfc3339.MatchString(tv) && !knownTimes[tv] {
 			return Val{K: "str", S: "sometime"}
 		}
 		return Val{K: "str", S: tv}
